@@ -190,8 +190,23 @@ func (e *Engine) intrinsic(st *State, name string, args []Value, c *ssa.CallComm
 		n := e.concreteInt(st, args[1])
 		v := e.nondetVar(st, label, "u64", 64)
 		if !v.IsConst() {
-			if !e.assumeHolds(st, ts.Cmp(OpBvUlt, v, ts.BVu(uint64(n), 64))) {
-				panic(sigDead{"assume-false"})
+			if _, known := st.known[v.ID]; !known {
+				// a fresh unconstrained variable: every value in [0,n) is feasible, no query needed
+				if n <= 0 {
+					panic(sigDead{"assume-false"})
+				}
+				for i := n - 1; i >= 1; i-- {
+					e.rep.Forks++
+					cl := st.clone(e)
+					c := ts.BVu(uint64(i), 64)
+					cl.known[v.ID] = c
+					e.extendWitnesses(cl, v, c)
+					e.addPC(cl, ts.Eq(v, c))
+					e.work = append(e.work, cl)
+				}
+				st.known[v.ID] = ts.BVu(0, 64)
+				e.extendWitnesses(st, v, ts.BVu(0, 64))
+				e.addPC(st, ts.Eq(v, ts.BVu(0, 64)))
 			}
 		}
 		cv := e.concretize(st, v)
